@@ -154,7 +154,11 @@ fn main() {
                    0x7FF0_0000_0000_0001, 0x7FFC_0000_0000_0001, 0xFFFE_0000_0000_0123, 0x7FFF_FFFF_FFFF_FFFF, 0xFFF4_0000_0000_0000]);
     let others: Vec<u64> = vec![Value::bool(true).raw_bits(), Value::bool(false).raw_bits(), Value::null().raw_bits(),
                                 0xFFFA_0000_0000_0001, 0xFFFB_0000_0000_0000, 0xFFF9_0000_0000_0005];
-    let core: Vec<u64> = {
+    let lite = flag("--lite");                           // quick tier: smaller core cross product
+    let core: Vec<u64> = if lite {
+        vec![int(0), int(1), int(-1), int(-(1 << 47)), int(64), flt(0.0), flt(1.5), flt(f64::INFINITY), flt(f64::NAN),
+             Value::bool(true).raw_bits(), Value::null().raw_bits(), ptrs[0], ptrs[1], ptrs[2]]
+    } else {
         let mut c = vec![int(0), int(1), int(-1), int(7), int(-(1 << 47)), int((1 << 47) - 1), int(64),
                          flt(0.0), flt(-0.0), flt(1.5), flt(-7.0), flt(f64::INFINITY), flt(f64::NAN), 1u64, flt(9007199254740993.0),
                          Value::bool(true).raw_bits(), Value::bool(false).raw_bits(), Value::null().raw_bits()];
